@@ -182,6 +182,18 @@ addenda8 = {'C02': ' Decimal strings with an explicit sign and with leading zero
 for k, v in addenda8.items():
     e = checks[k]
     checks[k] = (e[0], e[1], e[2] + v, e[3], e[4])
+addenda9 = {'C03': ' Flatten / Concat called with a spread list of lists [a nil b nil a], twice: the caller\'s outer list is an input too.',
+ 'C04': ' pairPass: every program of two operations without state de-duplication followed by one revealing step (Set, the interface{} Remove, SortByIndex) on either result - sharing with something outside the pool (a package-level object) cannot be part of a state key.',
+ 'C05': ' The results are worked on (SortByIndex, Remove) and the same questions asked of the same operands again.',
+ 'C08': ' A wrapped container that panics on one value (the caller recovers): the wrapper stays usable; sequential histories to depth 8 with the wrapped queue\'s node pool trimmed in between.',
+ 'C10': ' With SubscribeOn(h) all deliveries come from one goroutine, one at a time (two concurrent first publishers on a fresh handler).',
+ 'C15': ' Every queue scenario ends with all entry points called once more after the racing call has returned (a lock left behind by the loser of the race).',
+ 'C16': ' A default-schedule sweep over every (length <= 12, pool <= length+2) pair in both order modes (declared smoke run).',
+ 'C17': ' JSON bodies that are nil slices / maps / pointers to zero structs; one MonadIO evaluated three times with a serializer returning a one-shot reader.',
+ 'C20': ' Pattern lists over Kind(Slice/Map/Func/Chan), SumType and Otherwise with nil and empty containers as probes; NewCompData with nil containers.'}
+for k, v in addenda9.items():
+    e = checks[k]
+    checks[k] = (e[0], e[1], e[2] + v, e[3], e[4])
 
 not_yet = "check not built yet in this round (see DESIGN.md §9 build order); no claim made"
 
